@@ -215,6 +215,11 @@ def run(ctx):
         from . import mgr_deep
         mgr_deep.report(ctx, rs, mgr_deep.mode_results(), "pysmt/formula.py", 10)
 
+    if ctx.want("R10"):
+        rs = ctx.rule("R10", "real managers: importing a formula into an environment (normalize) gives the same copy whatever was imported before, also from another source whose node ids coincide")
+        from . import mgr_deep
+        mgr_deep.report(ctx, rs, mgr_deep.copy_results(), "pysmt/formula.py", 6)
+
     if ctx.want("R9"):
         rs = ctx.rule("R9", "real managers: types, widths, free variables, sizes and substitutions in a second environment are the same whether or not the first environment worked on nodes with the same ids before")
         from . import mgr_deep
